@@ -339,6 +339,16 @@ def step (st : St) (op impl : List String) : St × Verdict :=
       else if r.startsWith "env:" then (st, .ok)
       else (st, .mismatch "ok")
     | _ => (st, .mismatch "ok")
+  | ["leavejoin", _, _] =>
+    -- the last operator leaves during a non-operator's slow password check: verdict from the real outcome alone
+    match impl with
+    | ["ok"] => (st, .ok)
+    | [r] =>
+      if r.startsWith "bad:" then
+        (st, .oracle s!"C10: the last operator left while a non-operator's join was checking its password, and the join was still decided on the operator's presence: {r}")
+      else if r.startsWith "env:" then (st, .ok)
+      else (st, .mismatch "ok")
+    | _ => (st, .mismatch "ok")
   | ["histsnap", _, _] =>
     match impl with
     | ["ok"] => (st, .ok)
